@@ -6,6 +6,7 @@
 // Element kinds: int; Obj (owns a heap cell: ASan sees any lifetime error); kv = Obj whose
 // operator< compares value/16 only (so the output order of List::sort reveals the partition).
 #include "vh.hpp"
+#include <pthread.h>
 #define private public
 #define protected public
 #include <nstd/List.hpp>
@@ -16,6 +17,42 @@
 
 enum { NV = 3 };
 static long g_live = 0;
+
+// stack use of List::sort: operator< of the class element kinds records the lowest and highest frame
+// address it is called with while a sort runs.  The span is (live frames of QuickSort::sort - 1) x frame
+// size; the line of a sort says `k ok` when it stays within 1 KB x (ceil(log2(size)) + 2) - the bound of
+// theorem sort_as_coded_depth_log with a generous frame size - and `k DEEP` otherwise.
+static char* g_stk_lo = 0;
+static char* g_stk_hi = 0;
+static bool g_stk_on = false;
+static bool g_deep = false;
+static long g_stack_kb = 0; // case config `stack=<KB>`: sort() runs on a thread with a stack of that size
+static inline void stk_probe()
+{
+  if(!g_stk_on) return;
+  char* p = (char*)__builtin_frame_address(0);
+  if(!g_stk_lo || p < g_stk_lo) g_stk_lo = p;
+  if(!g_stk_hi || p > g_stk_hi) g_stk_hi = p;
+}
+template<class C> static void* sort_thread(void* p) { ((C*)p)->sort(); return 0; }
+template<class C> static void run_sort(C* l)
+{
+  g_stk_lo = g_stk_hi = 0; g_stk_on = true;
+  if(g_stack_kb > 0) {
+    pthread_attr_t a; pthread_t th;
+    pthread_attr_init(&a);
+    pthread_attr_setstacksize(&a, (size_t)g_stack_kb * 1024);
+    if(pthread_create(&th, &a, sort_thread<C>, l) != 0) { printf("?thread "); l->sort(); }
+    else pthread_join(th, 0);
+    pthread_attr_destroy(&a);
+  }
+  else l->sort();
+  g_stk_on = false;
+  unsigned long n = (unsigned long)l->size();
+  int lg = 0;
+  while((1UL << lg) < n) ++lg;
+  g_deep = (g_stk_hi - g_stk_lo) > 1024L * (lg + 2);
+}
 
 static inline int fdiv16(int v) { return v >= 0 ? v / 16 : -((-v + 15) / 16); }
 
@@ -29,7 +66,7 @@ template<bool KEYED> struct ObjT
   ObjT& operator=(const ObjT& o) { *p = *o.p; return *this; }
   bool operator==(const ObjT& o) const { return *p == *o.p; }
   bool operator!=(const ObjT& o) const { return *p != *o.p; }
-  bool operator<(const ObjT& o) const { return KEYED ? fdiv16(*p) < fdiv16(*o.p) : *p < *o.p; }
+  bool operator<(const ObjT& o) const { stk_probe(); return KEYED ? fdiv16(*p) < fdiv16(*o.p) : *p < *o.p; }
 };
 // Rec: an element type with constructors of 0..7 arguments that record what they were given (in the
 // order of the parameters).  Its value as printed = arity + 8 * (a0 + 8 * (a1 + 8 * (...))), the
@@ -197,9 +234,10 @@ template<class C> struct NodeCase
     for(int i = 0; i < NV; ++i) { printf(" "); dump_pub(letter, i, *v[i]); }
     printf(" |");
     for(int i = 0; i < NV; ++i) { printf(" "); dump_int(letter, i, *v[i]); }
-    if(rit && var >= 0) { Slots<C> s(*v[var]); printf(" r %ld\n", s.of(rit)); }
-    else printf(" r -\n");
-    rit = 0;
+    if(rit && var >= 0) { Slots<C> s(*v[var]); printf(" r %ld", s.of(rit)); }
+    else printf(" r -");
+    printf(g_deep ? " k DEEP\n" : " k ok\n");
+    rit = 0; g_deep = false;
   }
   static void set_it(const C& l, const typename C::Iterator& r) { rit = (r == l.end()) ? 0 : (const void*)r.item; }
 };
@@ -255,7 +293,7 @@ template<class T> struct ListCase : NodeCase<List<T> >
     else if(!strcmp(o, "ne")) { if(!idx(t.v[2], j)) printf("skip"); else printf((*l != *B::v[j]) ? "true" : "false"); }
     else if(!strcmp(o, "copy")) { if(!idx(t.v[2], j)) printf("skip"); else { C* n = new C(*B::v[j]); delete B::v[i]; B::v[i] = n; printf("-"); } }
     else if(!strcmp(o, "asg")) { if(!idx(t.v[2], j)) printf("skip"); else { *l = *B::v[j]; printf("-"); } }
-    else if(!strcmp(o, "sort")) { l->sort(); printf("-"); }
+    else if(!strcmp(o, "sort")) { run_sort(l); printf("-"); }
     else printf("?unknown-op");
     B::state_out(var);
   }
@@ -459,6 +497,7 @@ static void begin(long, vh::Tok& t)
   const char* cont = t.n > 2 ? t.v[2] : "list";
   const char* kind = t.n > 3 ? t.v[3] : "int";
   g_live = 0;
+  g_stack_kb = (t.n > 4 && !strncmp(t.v[4], "stack=", 6)) ? atol(t.v[4] + 6) : 0;
   if(!strcmp(kind, "obj")) start_kind<ObjT<false> >(cont);
   else if(!strcmp(kind, "kv")) start_kind<ObjT<true> >(cont);
   else if(!strcmp(kind, "rec")) PListCase<Rec>::start(); // the kind of the PoolList::append arities; PoolList only
